@@ -150,34 +150,40 @@ func (g *DirectedTargetGraph) GetDependants(target model.BuildNode) []model.Buil
 	return g.outEdges[target.GetLabel()]
 }
 
-// GetDescendants returns a list of nodes that are descendants (dependants) of the given node.
-// Recurses via the outEdges of each node.
+// GetDescendants returns the nodes that are descendants (transitive dependants) of the given node, each node once.
 func (g *DirectedTargetGraph) GetDescendants(target model.BuildNode) []model.BuildNode {
-	var descendants []model.BuildNode
-	for _, descendant := range g.outEdges[target.GetLabel()] {
-		verifhook.Count("dag.descendants")
-		descendants = append(descendants, descendant)
-
-		// Recurse
-		recursiveDescendants := g.GetDescendants(descendant)
-		descendants = append(descendants, recursiveDescendants...)
-	}
-	return descendants
+	return g.collectReachable(target, g.outEdges, "dag.descendants")
 }
 
-// GetAncestors returns a list of nodes that are ancestors (transitive dependencies) of the given node.
-// Recurses via the inEdges of each node.
+// GetAncestors returns the nodes that are ancestors (transitive dependencies) of the given node, each node once.
 func (g *DirectedTargetGraph) GetAncestors(target model.BuildNode) []model.BuildNode {
-	var ancestors []model.BuildNode
-	for _, ancestor := range g.inEdges[target.GetLabel()] {
-		verifhook.Count("dag.ancestors")
-		ancestors = append(ancestors, ancestor)
+	return g.collectReachable(target, g.inEdges, "dag.ancestors")
+}
 
-		// Recurse
-		recursiveAncestors := g.GetAncestors(ancestor)
-		ancestors = append(ancestors, recursiveAncestors...)
+// collectReachable walks the given edge map depth-first from start (start itself excluded) keeping a visited set,
+// so that every edge is followed once no matter how many paths lead to a node.
+func (g *DirectedTargetGraph) collectReachable(
+	start model.BuildNode,
+	edges map[label.TargetLabel][]model.BuildNode,
+	counterName string,
+) []model.BuildNode {
+	var reachable []model.BuildNode
+	visited := make(map[label.TargetLabel]struct{})
+
+	var visit func(node model.BuildNode)
+	visit = func(node model.BuildNode) {
+		for _, next := range edges[node.GetLabel()] {
+			verifhook.Count(counterName)
+			if _, seen := visited[next.GetLabel()]; seen {
+				continue
+			}
+			visited[next.GetLabel()] = struct{}{}
+			reachable = append(reachable, next)
+			visit(next)
+		}
 	}
-	return ancestors
+	visit(start)
+	return reachable
 }
 
 // hasNode checks whether a node exists in the graph.
